@@ -70,7 +70,7 @@ theorem C04_cancel_disarms (w w' : World) (k : Nat) (rest : List K) (isNil : Boo
   · cases hs
   · simp only [h1, Bool.false_eq_true, if_false] at hs
     cases hs
-    refine ⟨{ o with evR := false, cancelled := true, tstate := .ready }, ?_, rfl, rfl, rfl⟩
+    refine ⟨{ o with evR := false, cancelled := true, cancelledRep := true, tstate := .ready }, ?_, rfl, rfl, rfl⟩
     rw [← hid]
     exact getObj_setObj_self _ o _ (by rw [hid]; exact hg) rfl
 
@@ -98,7 +98,7 @@ theorem C04_fire_disarms (w w' : World) (op : Nat) (rest : List K) (info : OpInf
   simp only [hp, Bool.false_eq_true, if_false, if_true] at h
   split at h
   · cases h
-    refine ⟨{ o with evR := false, tstate := .ready }, ?_, rfl, rfl⟩
+    refine ⟨{ o with evR := false, tstate := .ready, cancelledRep := false }, ?_, rfl, rfl⟩
     rw [← hid]
     exact getObj_setObj_self _ o _ (show getObj { w with pending := w.pending - 1 } o.id = some o by rw [hid]; exact hg) rfl
   · cases h
@@ -108,18 +108,37 @@ theorem C04_once_not_rearmed (w : World) (op k : Nat) : applyAfter w op (.timerD
   simp only [applyAfter]
   cases getObj w k <;> simp
 
-/-- **Cancelled from inside its own callback, a repeating schedule stops**: the continuation only resets the flag. -/
+/-- **Cancelled from inside its own callback, a repeating schedule stops** — also when the callback went on to
+schedule something else after the Cancel (which clears `cancelled`; the defect repaired by 313bd86): a successful
+Cancel since the callback started (`cancelledRep`, the code's `cancels` counter) is enough. -/
 theorem C04_cancel_inside_own_callback_stops (w : World) (op k : Nat) (o : Obj) (hg : getObj w k = some o)
-    (hk : o.kind = .timer) (hc : o.cancelled = true) :
-    applyAfter w op (.timerDone k true) = setObj w { o with cancelled := false } := by
-  simp [applyAfter, hg, hk, hc]
+    (hk : o.kind = .timer) (hc : o.cancelled = true ∨ o.cancelledRep = true) :
+    applyAfter w op (.timerDone k true) = setObj w { o with cancelled := false, cancelledRep := false } := by
+  rcases hc with hc | hc <;> simp [applyAfter, hg, hk, hc]
+
+/-- `Cancel` records itself for a repeating callback that may be running. -/
+theorem C04_cancel_marks_running_repeat (w w' : World) (k : Nat) (rest : List K) (isNil : Bool) (o : Obj)
+    (hst : w.stack = .tcancelCall k :: rest) (hg : getObj w k = some o) (hopen : o.tstate ≠ .closed)
+    (hs : step w (.ret (.err isNil)) = some w') :
+    ∃ o', getObj w' k = some o' ∧ o'.cancelledRep = true := by
+  have hid := getObj_id hg
+  unfold step at hs
+  simp only [hst, hg] at hs
+  have h1 : (o.tstate == TState.closed) = false := by simpa using hopen
+  split at hs
+  · cases hs
+  · simp only [h1, Bool.false_eq_true, if_false] at hs
+    cases hs
+    refine ⟨{ o with evR := false, cancelled := true, cancelledRep := true, tstate := .ready }, ?_, rfl⟩
+    rw [← hid]
+    exact getObj_setObj_self _ o _ (by rw [hid]; exact hg) rfl
 
 /-- A repeating schedule whose timer was closed (or re-scheduled) from inside its callback is not re-armed either. -/
 theorem C04_closed_inside_own_callback_stops (w : World) (op k : Nat) (o : Obj) (hg : getObj w k = some o)
-    (hc : o.cancelled = false) (hs : o.tstate ≠ .ready) :
+    (hc : o.cancelled = false) (hcr : o.cancelledRep = false) (hs : o.tstate ≠ .ready) :
     applyAfter w op (.timerDone k true) = w := by
   have h1 : (o.tstate == TState.ready) = false := by simpa using hs
-  simp only [applyAfter, hg, hc, h1]
+  simp only [applyAfter, hg, hc, hcr, h1]
   simp
 
 /-! Non-vacuity: schedule, fire, re-schedule while scheduled fails, cancel, close, cancel-after-close, schedule fails. -/
